@@ -46,3 +46,24 @@ Print Assumptions C15_oracle_holds_on_model.
 Print Assumptions C15_message_types.
 Print Assumptions C15_uuid.
 Print Assumptions C15_version.
+
+(* ---------- over whole histories, from the refinement (proofs/UuidLast.v) ----------
+   last_uuid ops d is the argument of the last well-formed (16-byte) set_uuid call in ops, d if there is none.
+   After ANY well-formed history — processed packets of every kind, decodes, encoder calls, accessor calls in any
+   order — the UUID the context holds is last_uuid ops (16 zero bytes), and a Get Endpoint UUID request placed
+   anywhere in a history is answered with exactly the UUID last installed before it. *)
+Require Import Refine UuidLast.
+Theorem C15_uuid_is_last_installed : forall ovf g ops,
+  wf_cfg g -> valid_cfg g = true -> Forall wf_op ops ->
+  c_uuid (run_ctx ovf (ctx_of g) ops) = last_uuid ops (repeat 0 16).
+Proof. exact uuid_is_last_installed. Qed.
+Theorem C15_get_uuid_answers_last_installed : forall ovf g pre p buf post,
+  wf_cfg g -> valid_cfg g = true -> Forall wf_op (pre ++ OProcess p buf :: post) ->
+  answered g p buf = true -> ctl_cmd p = 3 ->
+  exists eids,
+    nth_error (run ovf (ctx_of g) (pre ++ OProcess p buf :: post)) (length pre) =
+    Some (resp_obs g p 0 (last_uuid pre (repeat 0 16)) buf, eids).
+Proof. exact get_uuid_answers_last_installed. Qed.
+
+Print Assumptions C15_uuid_is_last_installed.
+Print Assumptions C15_get_uuid_answers_last_installed.
